@@ -1,6 +1,6 @@
 CONSTANTS
   Kind = "set"
-  Rows = {0, 1, 100}
+  Rows = {0, 99, 100}
   Cols = {0, 1, 2, 3}
   Ops = {"SetBit","ClearBit","SetRow","ClearRow","BulkSet","BulkClear","RoaringSet","RoaringClear","Snapshot","Enqueue","BgSnapshot","Reopen","Row","Bit","Rows","ForEachBit","Blocks","BlockData"}
   Scope = "full"
